@@ -114,6 +114,12 @@ def main():
         harness_errors.append("no path completed (vacuous harness)")
     if agg.witness_bad:
         harness_errors.append(f"witness validation mismatch: {agg.witness_bad[0]['why']}")
+    undecided_spurious = 0
+    if spurious and getattr(mod, "SPURIOUS_IS_UNDECIDED", False):
+        # abstraction (uninterpreted functions): a model that does not reproduce numerically is inconclusive
+        undecided_spurious = len(spurious)
+        print(f"  {len(spurious)} solver model(s) under the EXP/POW abstraction did not reproduce numerically: reported as undecided")
+        spurious = []
     if spurious and not reproduced:
         harness_errors.append(
             f"{len(spurious)} solver model(s) did not reproduce on the real code, e.g. {spurious[0]['label']}: "
@@ -180,6 +186,7 @@ def main():
             "notes": agg.notes,
             "harness_errors": harness_errors,
             "spurious_models": len(spurious),
+            "undecided_abstraction_models": undecided_spurious,
             "known_findings_hit": sorted(known_hits),
             "time_limit_hit": agg.incomplete,
         },
